@@ -233,6 +233,13 @@ func (tw *textWorld) apply(st textStep) []string {
 			return []string{"compact failed: " + clip(r.Stderr, 200)}
 		}
 		return nil
+	case "other_plan":
+		// an unrelated plan: it rewrites the whole log and must leave every text alone
+		r := Run(Cmd{Args: []string{"--json", "plan"}, Mode: StdinPipe, Stdin: `{"title":"unrelated plan","tasks":[{"title":"unrelated a"},{"title":"unrelated b","after":["unrelated a"]}]}`, Dir: tw.root})
+		if !r.OK() {
+			return []string{"unrelated plan failed: " + clip(r.Stderr, 200)}
+		}
+		return nil
 	case "plan":
 		var tasks []string
 		for i, tt := range st.TaskTitles {
@@ -275,6 +282,9 @@ func (tw *textWorld) apply(st textStep) []string {
 		return nil
 	}
 	isCreate := strings.HasPrefix(st.Kind, "create")
+	if !isCreate && tw.target == "" {
+		return nil // the create was (legitimately) refused
+	}
 	kindWord := "task"
 	if st.Kind == "create_epic" {
 		kindWord = "epic"
@@ -335,6 +345,7 @@ func (tw *textWorld) apply(st textStep) []string {
 			c.Stdin = *st.Body
 		}
 	}
+	mayReject := st.Title != nil && strings.TrimSpace(*st.Title) == ""
 	c.Args = args
 	for _, a := range args {
 		if len(a) > 120000 {
@@ -344,6 +355,9 @@ func (tw *textWorld) apply(st textStep) []string {
 	r := Run(c)
 	if strings.Contains(r.Stderr, "[harness] exec error") {
 		return nil
+	}
+	if !r.OK() && mayReject {
+		return nil // a title of nothing but white space may be refused; if it is taken it must round-trip
 	}
 	if !r.OK() {
 		return []string{fmt.Sprintf("`%s` with valid text was rejected: %s", strings.Join(clipArgs(args), " "), clip(r.Stderr, 300))}
@@ -472,6 +486,12 @@ func TestC17(t *testing.T) {
 		default:
 			st := textStep{Kind: "create_task", Channel: channel("create.channel")}
 			st.Title = text("create.title", st.Channel, true)
+			if strings.HasPrefix(st.Channel, "json:") && pct(rt, 5, "blankish") {
+				// nothing but (non-ASCII) white space: may be refused as blank; if accepted it is
+				// a title like any other
+				st.Title = sp(oneOf(rt, []string{"\u00a0", "\u3000", "\u2028", "\f", "\v\u00a0", "\u2003\u2003"}, "blankish.which"))
+				classSet["whitespace-only-title"] = true
+			}
 			if pct(rt, 70, "create.body") || st.Channel == "bodystdin" {
 				st.Body = text("create.body", st.Channel, false)
 			}
@@ -519,6 +539,9 @@ func TestC17(t *testing.T) {
 				curBody = st.Body
 			}
 			steps = append(steps, st)
+		}
+		if pct(rt, 30, "otherplan") {
+			steps = append(steps, textStep{Kind: "other_plan"})
 		}
 		steps = append(steps, textStep{Kind: "compact"})
 		viol := runTextCase(steps)
